@@ -663,7 +663,11 @@ pub struct Visit<'a> {
     pub kind: Kind,
     pub depth: usize,
     pub block: &'a CodeBlock,
+    /// hash recomputed bottom-up from the leaves (what `Walker::hash` returns)
     pub model: RpoDigest,
+    /// the node's own rule applied to the hashes its children report: localises a deviation to the
+    /// node kind at fault instead of flagging every ancestor as well
+    pub local: RpoDigest,
     pub real: RpoDigest,
 }
 
@@ -672,6 +676,8 @@ pub struct Walker<'a, F: FnMut(Visit<'a>)> {
     pub on_node: F,
     /// callee roots already walked through the code block table
     pub seen_callees: HashSet<[u8; 32]>,
+    /// bottom-up model hash of every callee body walked
+    pub callee_models: Vec<([u8; 32], RpoDigest)>,
     /// callee roots present in a call node but absent from the code block table
     pub opaque_callees: usize,
 }
@@ -686,55 +692,60 @@ pub fn span_ops(block: &vm_core::code_blocks::Span) -> Vec<Operation> {
 
 impl<'a, F: FnMut(Visit<'a>)> Walker<'a, F> {
     pub fn new(cb_table: Option<&'a CodeBlockTable>, on_node: F) -> Self {
-        Walker { cb_table, on_node, seen_callees: HashSet::new(), opaque_callees: 0 }
+        Walker { cb_table, on_node, seen_callees: HashSet::new(), callee_models: vec![], opaque_callees: 0 }
     }
 
     /// Recomputes the hash of `block` bottom-up from its public structure only.
     pub fn hash(&mut self, block: &'a CodeBlock, depth: usize) -> RpoDigest {
-        let (kind, model) = match block {
+        let (kind, model, local) = match block {
             CodeBlock::Span(s) => {
                 let ops: Vec<RefOp> = span_ops(s).iter().map(RefOp::of).collect();
-                (Kind::Span, span_hash(&ops))
+                let h = span_hash(&ops);
+                (Kind::Span, h, h)
             }
             CodeBlock::Join(j) => {
                 let a = self.hash(j.first(), depth + 1);
                 let b = self.hash(j.second(), depth + 1);
-                (Kind::Join, join_hash(a, b))
+                (Kind::Join, join_hash(a, b), join_hash(j.first().hash(), j.second().hash()))
             }
             CodeBlock::Split(s) => {
                 let a = self.hash(s.on_true(), depth + 1);
                 let b = self.hash(s.on_false(), depth + 1);
-                (Kind::Split, split_hash(a, b))
+                (Kind::Split, split_hash(a, b), split_hash(s.on_true().hash(), s.on_false().hash()))
             }
             CodeBlock::Loop(l) => {
                 let a = self.hash(l.body(), depth + 1);
-                (Kind::Loop, loop_hash(a))
+                (Kind::Loop, loop_hash(a), loop_hash(l.body().hash()))
             }
             CodeBlock::Call(c) => {
                 let callee = c.fn_hash();
                 // the callee is "a program of which the VM is aware": look it up and recompute it
+                let mut callee_model = callee;
                 let key: [u8; 32] = callee.into();
                 if let Some(t) = self.cb_table {
                     if let Some(body) = t.get(callee) {
                         if self.seen_callees.insert(key) {
-                            self.hash(body, depth + 1);
+                            callee_model = self.hash(body, depth + 1);
+                            self.callee_models.push((key, callee_model));
+                        } else if let Some((_, m)) = self.callee_models.iter().find(|(k, _)| *k == key) {
+                            callee_model = *m;
                         }
                     } else if callee != dyn_hash() {
                         self.opaque_callees += 1;
                     }
                 }
                 if c.is_syscall() {
-                    (Kind::SysCall, syscall_hash(callee))
+                    (Kind::SysCall, syscall_hash(callee_model), syscall_hash(callee))
                 } else if callee == dyn_hash() {
-                    (Kind::DynCall, call_hash(dyn_hash()))
+                    (Kind::DynCall, call_hash(dyn_hash()), call_hash(dyn_hash()))
                 } else {
-                    (Kind::Call, call_hash(callee))
+                    (Kind::Call, call_hash(callee_model), call_hash(callee))
                 }
             }
-            CodeBlock::Dyn(_) => (Kind::Dyn, dyn_hash()),
-            CodeBlock::Proxy(p) => (Kind::Proxy, p.hash()),
+            CodeBlock::Dyn(_) => (Kind::Dyn, dyn_hash(), dyn_hash()),
+            CodeBlock::Proxy(p) => (Kind::Proxy, p.hash(), p.hash()),
         };
-        (self.on_node)(Visit { kind, depth, block, model, real: block.hash() });
+        (self.on_node)(Visit { kind, depth, block, model, local, real: block.hash() });
         model
     }
 }
